@@ -10,7 +10,7 @@ from .engine import Analysis, CLS, PUBLIC_API
 from .loader import norm
 from .locks import is_logging_stmt, stem, suffix, self_attr
 from .report import Rule
-from .rules_common import (MUT, primary, key_matches, showlock, site_text, site_func, site_loc,
+from .rules_common import (MUT, primary, key_matches, showlock, site_text, site_func, site_loc, site_akey,
                            mutation_events, resource_hits, func_nodes)
 from .terms import AnalysisError, show
 
@@ -51,7 +51,7 @@ def lockset_rule(A, rule, entries, resources, modes=("th", "mp")):
         if not count:
             for (fn, tx), rec in sorted(sites.items()):
                 rule.fail(fn, tx, f"{R} is modified while no identifier lock keyed by the same identifier is held",
-                          site_loc(A, rec["ev"]))
+                          site_loc(A, rec["ev"]), akey=site_akey(rec["ev"], R))
             continue
         best = sorted(count, key=lambda l: (-count[l], l))[0]
         assoc[R] = best
@@ -60,7 +60,7 @@ def lockset_rule(A, rule, entries, resources, modes=("th", "mp")):
                 rule.fail(fn, tx,
                           f"{R} is modified without the `{best}` claim that {count[best]} other site(s) hold "
                           f"(held here: {sorted(rec['locks']) or 'none'}): no common lock protects this file",
-                          site_loc(A, rec["ev"]), {"resource": R, "entries": sorted(rec["entries"])})
+                          site_loc(A, rec["ev"]), {"resource": R, "entries": sorted(rec["entries"])}, akey=site_akey(rec["ev"], R))
     return assoc
 
 
@@ -87,13 +87,34 @@ def stale_check_rule(A, rule, entries, resources, guards_of, modes=("th", "mp"))
                 rule.fail(site_func(ev), site_text(ev),
                           f"{c.cls} is modified on the strength of a {other[0][0]} check made before the claim on the same identifier was "
                           "taken and not repeated inside it (the reference state can change between the check and the act)",
-                          site_loc(A, ev), {"resource": c.cls, "entry": ev.entry})
+                          site_loc(A, ev), {"resource": c.cls, "entry": ev.entry}, akey=site_akey(ev, c.cls))
             if not ok:
                 rule.fail(site_func(ev), site_text(ev),
                           f"{c.cls} is modified on the strength of an existence/content check made outside any "
                           f"claim on the same identifier (check-then-act is not atomic; held at the write: "
                           f"{sorted(showlock(l) for l in ev.held_must) or 'nothing'})",
-                          site_loc(A, ev), {"resource": c.cls, "entry": ev.entry})
+                          site_loc(A, ev), {"resource": c.cls, "entry": ev.entry}, akey=site_akey(ev, c.cls))
+
+
+# ---------------------------------------------------------------------------------------
+def release_held_rule(A, rg, entries, only_cls=None):
+    """C07.f (and C03.g for the tagging claim): every release is reached with the claim held by this call"""
+    for m in ("th", "mp"):
+        for e in entries:
+            it = A.api(e, m)
+            for r in it.lock_events:
+                if r["kind"] != "release" or (only_cls is not None and r["cls"] != only_cls):
+                    continue
+                rg.ob()
+                rg.inst(f"{r['func'].qual}:{r['op'].node.lineno} release {r['cls']}")
+                if r.get("held"):
+                    continue
+                labs = r.get("handling") or ()
+                rg.fail(r["func"], r["op"].node, f"{showlock((r['cls'], r['key']))} is released on a path"
+                        + (f" that carries {labs[-1]}" if labs else "") + f" of {e} on which this call never took it"
+                        + (" (or has released it already; the release is written to tolerate that)" if r.get("conditional") else "") + ": "
+                        "the claim removed belongs to another thread, whose exclusion is thereby lost", A.p.loc(r["func"], r["op"].node),
+                        {"entry": e, "handling": list(labs)})
 
 
 # ---------------------------------------------------------------------------------------
@@ -164,8 +185,13 @@ def check_C07(A: Analysis, tier):
     stale_check_rule(A, rb, OBJ_ENTRIES, ("OBJ", "CIDREFS", "PIDREFS"), GUARDS_OF)
     rules.append(rb)
 
-    rc = Rule("C07", "C07.c", "the non-blocking try-claim occurs only in store_object on the pid claim list and "
+    rc = Rule("C07", "C07.c", "the non-blocking try-claim is executed only as part of store_object, on the pid claim list, and "
               "raises the documented in-progress error", floor=2)
+    executed = {}
+    for it in A.all_api_runs():
+        for r in it.lock_events:
+            if r["kind"] == "tryclaim":
+                executed.setdefault(id(r["op"].node), []).append((it.entry, r["ctx"]))
     for op in A.all_lockops():
         if op.kind == "tryclaim":
             rc.inst(f"{op.func.qual}:{op.node.lineno} try-claim on {op.cls} ({op.mode})")
@@ -173,8 +199,14 @@ def check_C07(A: Analysis, tier):
             lab = None
             if op.raise_node is not None and isinstance(op.raise_node.exc, ast.Call):
                 lab = ast.unparse(op.raise_node.exc.func)
-            if op.func.qual != f"{CLS}.store_object" or op.cls != "object_locked_pids" or lab != "StoreObjectForPidAlreadyInProgress":
-                rc.fail(op.func, op.node, f"try-claim (immediate rejection) on {op.cls} raising {lab}: the only "
+            # who executes it: every public call that reaches the construct must do so inside store_object
+            # (directly or through a helper only store_object uses)
+            runs = executed.get(id(op.node), [])
+            outside = sorted({e for e, ctx in runs if f"{CLS}.store_object" not in ctx})
+            direct = op.func.qual == f"{CLS}.store_object"
+            if (not direct and (not runs or outside)) or op.cls != "object_locked_pids" or lab != "StoreObjectForPidAlreadyInProgress":
+                rc.fail(op.func, op.node, f"try-claim (immediate rejection) on {op.cls} raising {lab}"
+                        + (f", executed by {outside}" if outside else "") + ": the only "
                         "permitted non-blocking claim is store_object's duplicate-pid rejection", A.p.loc(op.func, op.node))
     rules.append(rc)
 
@@ -197,24 +229,28 @@ def check_C07(A: Analysis, tier):
     shared_state_rule(A, rs)
     rules.append(rs)
 
+    rh = Rule("C07", "C07.h", "no call removes a directory of the store's permanent trees: a shard directory is shared by every identifier "
+              "with the same prefix, and creating it (makedirs) and moving a file into it is atomic with no claim an rmdir could hold", floor=3)
+    seen_h = set()
+    for it in A.all_api_runs(("th",)):
+        for ev in it.events:
+            if ev.kind != "REMOVE":
+                continue
+            kh = (ev.func.qual, ev.line)
+            if kh in seen_h:
+                continue
+            seen_h.add(kh)
+            rh.ob()
+            rh.inst(f"{ev.func.qual}:{ev.line} {ev.prim}")
+            if ev.prim in ("os.rmdir", "os.removedirs", "shutil.rmtree", "path.rmdir"):
+                rh.fail(site_func(ev), site_text(ev), f"{ev.prim} removes a directory ({sorted(repr(c) for c in ev.classes[0])[:1]}): a concurrent call that has just "
+                        "created / verified the directory and is about to move a file into it fails although it holds its own identifier's claim",
+                        site_loc(A, ev))
+    rules.append(rh)
+
     rg = Rule("C07", "C07.f", "a call releases only claims it took itself: no release is reached, on the normal path, on a "
               "rejection path or on an I/O-fault path, without the same claim being held by this call", floor=6)
-    for m in ("th", "mp"):
-        for e in OBJ_ENTRIES + ["store_metadata", "delete_metadata"]:
-            it = A.api(e, m)
-            for r in it.lock_events:
-                if r["kind"] != "release":
-                    continue
-                rg.ob()
-                rg.inst(f"{r['func'].qual}:{r['op'].node.lineno} release {r['cls']}")
-                if r.get("held"):
-                    continue
-                labs = r.get("handling") or ()
-                if True:
-                    rg.fail(r["func"], r["op"].node, f"{showlock((r['cls'], r['key']))} is released on a path"
-                            + (f" that carries {labs[-1]}" if labs else "") + f" of {e} on which this call never took it: "
-                            "the claim removed belongs to another thread, whose exclusion is thereby lost", A.p.loc(r["func"], r["op"].node),
-                            {"entry": e, "handling": list(labs)})
+    release_held_rule(A, rg, OBJ_ENTRIES + ["store_metadata", "delete_metadata"])
     rules.append(rg)
 
     re_ = Rule("C07", "C07.e", "an identifier claim waits, in a re-checking loop, on the key and list it then appends", floor=6)
